@@ -12,24 +12,24 @@ PROPERTY = 'C05'
 MANIFEST = {
     'level_text': 'Proved for all table sizes / site counts (relative to the assumed numpy contracts): the count matrix is exact cell by cell '
                   '(np.unique-rows + fancy assignment incl. negative-index wrap), empty diagonal for jump tables, callee preconditions of the '
-                  'thin callers, scalar structure and summand of jump_diffusivity. Bounded only: matrix total = number of jumps, per-label '
-                  'counter, graph edge set, occupancies (exhaustive small tables + seeded random histories on the real classes). '
+                  'thin callers, scalar structure and summand of jump_diffusivity; matrix total = number of table rows by the L-partition lemma '
+                  '(two nested inductions). Bounded only: per-label counter, graph edge set, occupancies (exhaustive small tables + seeded random histories on the real classes). '
                   'Transitions.matrix() with NOSITE rows is the recorded known finding C05-nosite-fold.',
     'level_note': 'Trusted: numpy contracts (unique(axis=0,return_counts), fancy assignment, sum), pandas column access, pymatgen '
                   'get_all_distances as uninterpreted mindist, FloatWithUnit as float, integers unbounded, floats as reals, pyvc itself.',
     'technique': 'deductive: VCs from the real AST of _calculate_transitions_matrix / Jumps.matrix / Jumps.jump_diffusivity discharged by z3; '
                  'counter-models by finite-scope grounding replayed on the real code; bounded stand-ins for the aggregate clauses',
 }
-UNITS = ['unit_matrix', 'unit_matrix_nosite', 'unit_jumps_matrix', 'unit_diffusivity']
+UNITS = ['unit_matrix', 'unit_matrix_nosite', 'unit_jumps_matrix', 'unit_diffusivity', 'unit_partition']
 BOUNDED = ['bounded_matrix', 'bounded_bookkeeping']
 META = {
     'clauses': {
         'C05.matrix': 'P: M[i,j] = Count(rows start=i, dest=j) for tables without NOSITE; with NOSITE rows the cells outside row/column n-1 (known finding C05-nosite-fold for the rest)',
         'C05.diag': 'P: empty diagonal given start != destination (C04.E2)',
         'C05.diff': 'P: scalar structure and summand of jump_diffusivity; the exchange lemma sum_ij d_ij^2 M_ij = sum_jumps d^2 is B (bounded)',
-        'C05.sum/C05.counter/C05.graph/C05.rates/C05.occ': 'B: bounded stand-in only',
+        'C05.sum': 'P (L-partition lemma over C05.matrix)', 'C05.counter/C05.graph/C05.rates/C05.occ': 'B: bounded stand-in only',
     },
-    'not_decided': ['L-partition (sum of the matrix = number of rows) and L-exch: induction lemmas not built; bounded stand-in instead'],
+    'not_decided': ['L-exch (sum_ij d_ij^2 M_ij = sum over jumps of d^2): induction lemma not built; bounded stand-in instead'],
 }
 
 
@@ -247,6 +247,14 @@ def unit_diffusivity(tier):
 # ---------------------------------------------------------------------------------------------------------------
 # native replay + bounded stand-ins
 # ---------------------------------------------------------------------------------------------------------------
+
+def unit_partition(tier):
+    """sum of the count matrix = number of table rows (cells = bins, rows = samples): spec-level lemma over the proved cell-by-cell count postcondition."""
+    from verif.props.common import partition_lemmas
+    u = Unit('C05.partition')
+    partition_lemmas(u, 'C05', 'sum of the count matrix = number of table rows (cells = bins, rows = samples)')
+    return u
+
 
 def replay_matrix(inputs):
     import numpy as np
